@@ -156,3 +156,9 @@ prop("C12", "KM", "translation_validation",
      text="(K) the parts of the builder that CBMC reaches are decided by Kani harnesses shared with other properties: every opcode helper appends exactly the operator its name denotes (all 197 helpers, all immediates; C24's family), add_local / add_locals bookkeeping on the builder (C14's family), ValType::from(&DataType) for declared types (K-conv), Module::add_local_func_with_tag ids and bookkeeping (K-ops). (M) Engine M (module-level translation validation): functions are built through the real FunctionBuilder API (new with parameter types, add_local, set_name, opcode helpers, finish_module) inside edit histories of <= 2 (quick) / 3 (thorough) steps that also add/delete imports, functions, globals and memories around them, on engine M's base module; the real encode() output is decoded and every built function - found through an export made with the RETURNED FunctionID - must have exactly the requested parameter and result types, the declared locals, the built opcode sequence followed by one `end`, and the name that was set; z3 decides for all host values that the function's value (hence every entity its call / global.get / i32.load immediates designate) is the one the builder was given.",
      technique="z3 equivalence of the instantiation semantics of the real encoder's output with a label-based reference model + exact comparison of signature / locals / opcode sequence / name of every built function, over bounded-exhaustive builder-and-edit histories (engine M) + Kani/CBMC bounded model checking of the opcode helpers, local bookkeeping and add_local_func",
      outside="FunctionBuilder::finish_module itself is executed natively, not symbolically (CBMC runs out of memory on Operator::clone, DESIGN.md section 1); result types other than [i32], multi-value, control flow inside built bodies (engine T's subject), finish_component; 4 builder shapes (<= 2 params, <= 4 locals, <= 4 instructions)" + M_OUT)
+
+
+prop("C23", "M", "translation_validation",
+     text="Engine M (module-level translation validation): every addition (imported/local globals, imported/built functions, imported/local memories, data segments, exports) and every probe (before / after at an instruction, function entry) of a history of <= 2 (quick) / 3 (thorough) steps carries a tag of its own; the report of the real Module::pull_side_effects (taken from a second module instance driven through the same history, because pulling runs an encoding of its own) must contain exactly one record of the right kind per tagged item with that tag and the item's content (names, kinds, limits, bytes, types, mutability, opcode sequences), no record for anything of the parsed module, and z3 decides for all host values that every function / global / memory a PROBE record's code mentions is, in the index space of the module the real encode() emits for that history, the entity the history injected.",
+     technique="z3 equivalence, in the encoded module's index space and for all host values, of the entities mentioned by probe records of the real side-effect report with those the history injected + exact comparison of the report's records with the tagged history, over bounded-exhaustive tagged edit histories (engine M)",
+     outside="the report is produced natively (encode_internal is not symbolically executable, DESIGN.md section 1); IDs stored in records (id / index / fid / memory_index), the index space of initialisers / offsets / bodies in global / data / function records (the statement pins it for probe bodies only), type / local / table / element records, special-mode probes other than function entry (their lowered copies are reported a second time without tag: not judged), two injections into one list (reported as one record with both tags)" + M_OUT)
